@@ -1,6 +1,6 @@
 """Confirm a seeded change (seeded/<id>/{patch.diff, meta.json, demo}) and run the check against it.
 
-usage: python3 tools/seedcheck.py seeded/<id> [--no-check] [--tier quick]
+usage: python3 tools/seedcheck.py seeded/<id> [--no-check] [--check-only] [--tier quick] [--write]
 
 meta.json keys used: property, test_pkgs (list of go package patterns), demo {file, pkg_dir, run} or
 demo {file, program: true}.
@@ -88,7 +88,8 @@ def main():
     try:
         if meta.get("modfile") == "goctl":
             MODARGS[:] = ["-modfile", goctl_modfile(wt)]
-        demo = meta.get("demo")
+        only = "--check-only" in sys.argv     # re-run the check alone (demo / tests were confirmed at intake)
+        demo = None if only else meta.get("demo")
         if demo:
             rc, out = run_demo(wt, sd, demo)
             res["demo_without_patch"] = "pass" if rc == 0 else "FAIL"
@@ -105,7 +106,7 @@ def main():
         res["builds"] = rc == 0
         if rc != 0:
             res["build_out"] = out[-1500:]
-        pk = meta.get("test_pkgs") or []
+        pk = [] if only else (meta.get("test_pkgs") or [])
         if pk:
             rc, out = sh(["go", "test"] + MODARGS + ["-vet=off", "-count=1"] + pk, cwd=bdir, timeout=2400)
             if rc != 0:
@@ -145,6 +146,11 @@ def main():
                 pass
     print(json.dumps(res, indent=1))
     if "--write" in sys.argv:
+        if "--check-only" in sys.argv and isinstance(meta.get("confirmed"), dict):
+            old = dict(meta["confirmed"])
+            old.pop("check_tail", None)
+            old.update(res)
+            res = old
         meta["confirmed"] = res
         with open(os.path.join(sd, "meta.json"), "w") as f:
             json.dump(meta, f, indent=1)
